@@ -56,6 +56,9 @@ def generate(ctx):
     for _ in range(150 if quick else 1000):
         a, b = G.rand_scalar(rng), G.rand_scalar(rng)
         cases.append(case(1, a, b, ['scalars']))
+    # members added with cJSON_AddItemToObjectCS on either side: constant keys are borrowed memory, the generated patch owns copies
+    from .C16 import constified
+    for c in rng.sample(cases, min(len(cases), 300 if quick else 1500)): cases.append(constified(c, rng))
     return cases
 
 def project(c, out): return strip_suffix(out)
